@@ -376,7 +376,13 @@ def netloc_units(ctx, src):
     u.function(src, NET, r'pair<string, uint16_t> parse_netloc\(const string& netloc, int default_port\)',
                new_header='void parse_netloc(vstr* ret_host, uint16_t* ret_port, const vstr* netloc, int default_port)',
                rules=[Rule(r"\bnetloc\.find\(('(?:[^'\\]|\\.)')\)", r'c11_find_char(netloc, \1)', count=1, regex=True),
-                      Rule('string::npos', 'C11_NPOS', count=1),
+                      Rule('string::npos', 'C11_NPOS', count='+'),
+                      # type-directed std::string members / conversions on the parameter (whatever the body does with them)
+                      Rule(r'\bnetloc\.empty\(\)', '(vstr_size(netloc) == 0)', count=None, regex=True),
+                      Rule(r'\bnetloc\.(?:size|length)\(\)', 'vstr_size(netloc)', count=None, regex=True),
+                      Rule(r'\bnetloc\.find_first_not_of\((%s)\)' % LIT, r'c11_find_first_not_of(netloc, \1)', count=None, regex=True),
+                      Rule(r'\breturn make_pair\(string\(\), ([^;]+)\);', r'{ ret_host->size = 0; *ret_port = (uint16_t)(\1); return; }', count=None, regex=True),
+                      Rule(r'\bsto(?:ul|i|l|ull)\(netloc\)', 'c11_stoul(netloc)', count=None, regex=True),
                       Rule(r'\breturn make_pair\(netloc, ([^;()]+)\);',
                            r'{ c11_assign_vstr(ret_host, netloc); *ret_port = (uint16_t)(\1); return; }', count=1, regex=True),
                       # pair<string,double> -> pair<string,uint16_t>: the double returned by stod is converted to uint16_t
@@ -396,7 +402,7 @@ def netloc_groups(ctx):
                   kind='bounded', bound=B, cbmc_flags=fl, min_post=3, timeout=300, stage1=30, replay=RP,
                   clause_note='parse_netloc(render_netloc(h, p), d) == (h, p) for non-empty colon-free h and 1 <= p <= 65535'),
             Group(name='Network.netloc.no-port[bounded]', harness=H, entry='b_netloc_noport', function='parse_netloc(render_netloc(host, 0), d)',
-                  kind='bounded', bound=B, cbmc_flags=fl, min_post=2, timeout=300, stage1=30,
+                  kind='bounded', bound=B, cbmc_flags=fl, min_post=2, timeout=300, stage1=30, replay=Replay(driver='C11/encoding.cc', mode='netloc_noport', sources=ALL_LIB),
                   clause_note='port 0 is rendered as the bare host and parsed back as (h, default_port)')]
 
 
